@@ -144,7 +144,16 @@ PARSER_CLASSES = [
       ('exceptions', 'MissedCloseException'): 'HTMLValidationException',
       ('exceptions', 'InvalidAttributeNameException'): 'HTMLValidationException'},
      {'isValidAttributeName': ('Tags.py', 'tags')}, ('AdvancedHTMLParser', 'Parser.py')),
+    ('Tags.py', 'advanced_tag', 'AdvancedTag', ['getStartTag'], (), {}, {'escapeQuotes': ('utils.py', 'utils')}, None),
 ]
+# PARSER_CLASSES classes that override dot access: class -> (the exact first statement `__getattribute__` must have — then
+# `self.f` is the plain attribute whenever the object has one —, module constants (sets of texts) the methods may name, with
+# the sibling module they are imported from: `Expr.global`, supplied by the theorems from the regenerated tables).  The dumped
+# methods of such a class must not assign to `self.<name>` (`__setattr__` is not modelled).
+PARSER_CLASS_DOT_ACCESS = {
+    'AdvancedTag': ('try:\n    return object.__getattribute__(self, name)\nexcept:\n    pass',
+                    {'TAG_ITEM_BINARY_ATTRIBUTES': 'constants.py'}),
+}
 # special methods a PARSER_CLASSES class must not define (`self.f` is then the plain attribute)
 PARSER_CLASS_FORBIDDEN = ('__getattr__', '__getattribute__', '__setattr__')
 
@@ -586,6 +595,8 @@ class _FunTranslator(object):
                 return self.expr(self.mod.const_tuples[n.id], module_scope=True)
             if n.id in self.mod.int_consts:
                 return '(.global %s)' % lean_str(n.id)
+            if self.pcls is not None and n.id in self.pcls.get('consts', {}) and n.id not in self.locals:
+                return '(.global %s)' % lean_str(n.id)
             self.fail(n, 'name %s is neither local, a module singleton / constant (tuple) nor an exception class' % n.id)
         if isinstance(n, ast.List) and isinstance(n.ctx, ast.Load) and not n.elts:
             return '.newList'
@@ -641,6 +652,19 @@ class _FunTranslator(object):
             return '(.boundMeth %s %s)' % (lean_str(n.value.id), lean_str(n.attr))
         if isinstance(n, ast.Dict) and not n.keys:
             return '.newDict'
+        if self.pcls is not None and isinstance(n, ast.BinOp) and isinstance(n.op, ast.Mod) \
+                and isinstance(n.left, ast.Constant) and isinstance(n.left.value, str):
+            # 'literal' % (a, b)  /  'literal' % a   (a parenthesised single value is that value; a tuple VALUE as the single
+            # argument would be spread by Python: only syntactic tuples and non-tuple expressions are accepted)
+            if isinstance(n.right, ast.Tuple):
+                args = n.right.elts
+            elif isinstance(n.right, (ast.Name, ast.Attribute, ast.Constant)):
+                self.fail(n, 'format with a single argument that could be a tuple')
+            else:
+                self.fail(n, 'format argument')
+            if any(isinstance(a, ast.Starred) for a in args):
+                self.fail(n, 'starred format argument')
+            return '(.format %s [%s])' % (lean_str(n.left.value) + '.toList', ', '.join(self.expr(a, module_scope) for a in args))
         if isinstance(n, ast.BinOp):
             op = BINOPS.get(type(n.op))
             if op is None:
@@ -708,6 +732,9 @@ class _FunTranslator(object):
             if isinstance(f, ast.Name):
                 if not module_scope and f.id in self.locals:
                     return '(.callv (.var %s) %s)' % (lean_str(f.id), args)
+                if self.pcls is not None and f.id == 'tostr' and self.mod.imported_funcs.get('tostr') == 'utils.py':
+                    _check_tostr(self.mod.repo)
+                    return '(.call "tostr" %s)' % args
                 if self.pcls is not None and f.id in self.pcls['exc']:
                     # instantiating a library exception class (its `__init__` is taken to return normally: PyAst.callValue)
                     return '(.callv (.excClass %s) %s)' % (lean_str(f.id), args)
@@ -854,11 +881,16 @@ class _FunTranslator(object):
         if self.pcls is not None and isinstance(st, ast.For) and isinstance(st.target, ast.Tuple):
             # `for (a, b) in x:` over a local variable holding a list of 2-tuples
             t = st.target
+            it = st.iter
+            items_of_field = (isinstance(it, ast.Call) and isinstance(it.func, ast.Attribute) and it.func.attr == 'items'
+                              and not it.args and not it.keywords and self.self_field(it.func.value) is not None)
             if st.orelse or len(t.elts) != 2 or not all(isinstance(e, ast.Name) for e in t.elts) \
-                    or t.elts[0].id == t.elts[1].id or not isinstance(st.iter, ast.Name) or st.iter.id not in self.locals \
-                    or st.iter.id in self.aliases or st.iter.id == self.self_name \
-                    or any(e.id in self.aliases or e.id == self.self_name or e.id == st.iter.id for e in t.elts):
-                self.fail(st, 'for with a tuple target other than `for (a, b) in <local variable>`')
+                    or t.elts[0].id == t.elts[1].id \
+                    or any(e.id in self.aliases or e.id == self.self_name for e in t.elts):
+                self.fail(st, 'for with a tuple target other than two plain names')
+            if not items_of_field and (not isinstance(it, ast.Name) or it.id not in self.locals or it.id in self.aliases
+                                       or it.id == self.self_name or any(e.id == it.id for e in t.elts)):
+                self.fail(st, 'for with a tuple target over something else than a local variable or self.<field>.items()')
             lines = ['%s.forPair %s %s %s [' % (pad, lean_str(t.elts[0].id), lean_str(t.elts[1].id), self.expr(st.iter))]
             lines += self.block(st.body, ind + 2)
             lines.append('%s]' % pad)
@@ -1170,9 +1202,22 @@ def generate_code(repo):
                     for nm in ast.walk(t):
                         if isinstance(nm, ast.Name):
                             assigned.add(nm.id)
-        for bad in PARSER_CLASS_FORBIDDEN:
-            if bad in defs or bad in assigned:
-                mod.fail(cls, 'class %s defines %s' % (cls_name, bad))
+        dot = PARSER_CLASS_DOT_ACCESS.get(cls_name)
+        if dot is None:
+            for bad in PARSER_CLASS_FORBIDDEN:
+                if bad in defs or bad in assigned:
+                    mod.fail(cls, 'class %s defines %s' % (cls_name, bad))
+        else:
+            ga = defs.get('__getattribute__', [])
+            if len(ga) != 1 or ga[0] not in cls.body or '__getattr__' in defs or '__getattribute__' in assigned \
+                    or [p.arg for p in ga[0].args.args] != ['self', 'name'] or ga[0].decorator_list:
+                mod.fail(cls, 'class %s: __getattribute__(self, name) is not defined exactly once' % cls_name)
+            stmts = [x for x in ga[0].body if not (isinstance(x, ast.Expr) and isinstance(x.value, ast.Constant))]
+            if not stmts or ast.unparse(stmts[0]) != dot[0]:
+                mod.fail(ga[0], '__getattribute__ does not start with the plain lookup')
+            for cname, crel in sorted(dot[1].items()):
+                if mod.imported_funcs.get(cname) != crel:
+                    mod.fail(cls, '%s is not imported once from %s' % (cname, crel))
         for (emod, ename), ebase in sorted(excs.items()):
             if ('%s' % emod, 1, ename) not in mod.from_imports:
                 mod.fail(cls, '%s is not imported once from .%s' % (ename, emod))
@@ -1187,7 +1232,7 @@ def generate_code(repo):
             if [ast.unparse(b) for b in cls.bases] != [base[0]] or mod.imported_funcs.get(base[0]) != base[1]:
                 mod.fail(cls, 'class %s is not derived from %s alone, imported once from %s' % (cls_name, base[0], base[1]))
         info = {'name': cls_name, 'elem_attrs': tuple(elem_attrs), 'exc': set(n for (_m, n) in excs),
-                'base': base[0] if base is not None else None}
+                'base': base[0] if base is not None else None, 'consts': dict(dot[1]) if dot is not None else {}}
         names = []
         for m in methods:
             if len(defs.get(m, [])) != 1 or defs[m][0] not in cls.body or m in assigned:
@@ -1198,6 +1243,11 @@ def generate_code(repo):
                 if isinstance(n, ast.Attribute) and isinstance(n.value, ast.Name) and fn.args.args \
                         and n.value.id == fn.args.args[0].arg and (n.attr in defs or n.attr in assigned):
                     mod.fail(n, '%s.%s is a class-level name, not a plain field' % (n.value.id, n.attr))
+            if dot is not None:
+                for n in ast.walk(fn):
+                    if isinstance(n, ast.Attribute) and not isinstance(n.ctx, ast.Load) and isinstance(n.value, ast.Name) \
+                            and fn.args.args and n.value.id == fn.args.args[0].arg:
+                        mod.fail(n, 'assignment to %s.%s in a class that overrides __setattr__' % (n.value.id, n.attr))
             ln = '%s_%s_ast' % (cls_name, m.strip('_'))
             parts.append(_FunTranslator(mod, fn, list(earlier), prims=set(), lean_name=ln, pcls=info).translate())
             parts.append('')
